@@ -109,6 +109,10 @@ func wdStart() {
 }
 
 // evalIn parses and evaluates src in env (the caller decides which scope).
+// noFuel: the race harness evaluates fixed, terminating programs from many goroutines; the fuel counter (one global of the
+// verif hook) would itself be a data race there, so it stays at -1 (unlimited: verifTick only reads it)
+var noFuel bool
+
 func evalIn(src string, env *object.Env, out *bytes.Buffer) (res evalResult) {
 	defer func() {
 		if r := recover(); r != nil {
@@ -123,9 +127,13 @@ func evalIn(src string, env *object.Env, out *bytes.Buffer) (res evalResult) {
 	}
 	wdStart()
 	wdSince.Store(time.Now().UnixNano())
-	evaluator.VerifFuel = evalFuel
+	if !noFuel {
+		evaluator.VerifFuel = evalFuel
+	}
 	v := evaluator.Eval(node, env)
-	evaluator.VerifFuel = -1
+	if !noFuel {
+		evaluator.VerifFuel = -1
+	}
 	wdSince.Store(0)
 	r := describe(v, out)
 	if r.Kind == "error" && r.ErrMsg == evaluator.VerifOutOfFuelMsg {
